@@ -601,7 +601,7 @@ fn emit_ms<Pk: FromStrKey, Ctx: ScriptContext>(
     out: &mut String,
     ms: &Miniscript<Pk, Ctx>,
     kt: &KeyTable,
-    enc_len: Option<usize>,
+    enc_len: Option<(usize, bool)>,
 ) {
     let mut w = Walk { toks: vec![], tys: vec![], ty_same: vec![], ext_same: vec![] };
     let rebuilt = walk(ms, kt, &mut w);
@@ -639,9 +639,10 @@ fn emit_ms<Pk: FromStrKey, Ctx: ScriptContext>(
     let ti = ms.ext.timelock_info;
     writeln!(
         out,
-        "LIM size={} enc={} pkcost={} ops={} wit={} ssz={} stk={} h={} tl={}{}{}{}{} rep={} lv={} gv={}",
+        "LIM size={} enc={} ifop={} pkcost={} ops={} wit={} ssz={} stk={} h={} tl={}{}{}{}{} rep={} lv={} gv={}",
         ms.script_size(),
-        o(enc_len),
+        o(enc_len.map(|x| x.0)),
+        enc_len.map(|x| (x.1 as u8).to_string()).unwrap_or_else(|| "-".into()),
         ms.ext.pk_cost,
         o(ms.ext.sat_data.map(|d| ms.ext.static_ops + d.max_exec_op_count)),
         o(ms.max_satisfaction_witness_elements().ok()),
@@ -677,14 +678,25 @@ fn emit_ms<Pk: FromStrKey, Ctx: ScriptContext>(
 
 /// How to obtain the real script length (only for keys that serialise)
 pub trait EncLen: MiniscriptKey {
-    fn enc_len<Ctx: ScriptContext>(ms: &Miniscript<Self, Ctx>) -> Option<usize>;
+    /// (length of the real script, does it contain OP_IF / OP_NOTIF / OP_IFDUP) -- read off the BYTES
+    fn enc_len<Ctx: ScriptContext>(ms: &Miniscript<Self, Ctx>) -> Option<(usize, bool)>;
 }
 impl EncLen for String {
-    fn enc_len<Ctx: ScriptContext>(_ms: &Miniscript<Self, Ctx>) -> Option<usize> { None }
+    fn enc_len<Ctx: ScriptContext>(_ms: &Miniscript<Self, Ctx>) -> Option<(usize, bool)> { None }
 }
 impl EncLen for DefiniteDescriptorKey {
-    fn enc_len<Ctx: ScriptContext>(ms: &Miniscript<Self, Ctx>) -> Option<usize> {
-        catch_unwind(AssertUnwindSafe(|| ms.encode().len())).ok()
+    fn enc_len<Ctx: ScriptContext>(ms: &Miniscript<Self, Ctx>) -> Option<(usize, bool)> {
+        catch_unwind(AssertUnwindSafe(|| {
+            use bitcoin::blockdata::opcodes::all::{OP_IF, OP_IFDUP, OP_NOTIF};
+            use bitcoin::blockdata::script::Instruction;
+            let sc = ms.encode();
+            let has_if = sc.instructions().any(|i| match i {
+                Ok(Instruction::Op(op)) => op == OP_IF || op == OP_NOTIF || op == OP_IFDUP,
+                _ => false,
+            });
+            (sc.len(), has_if)
+        }))
+        .ok()
     }
 }
 
@@ -909,6 +921,22 @@ fn all_apis<Pk: FromStrKey + EncLen>(out: &mut String, id: &str, p: &P, mode: &s
     compile_desc::<Pk>(out, id, "trnative", "tr-unsp", p, &kt_t, &|pol, u| {
         pol.compile_tr_native(u, 64).map_err(|e| class_of(&e))
     });
+    }
+    // compile_tr_native with budgets too small to avoid IF fragments: it must refuse, never return
+    // a leaf with OP_IF / OP_NOTIF (max_leaves = 1, 2, number of root disjuncts - 1)
+    if want("tap") {
+        let mut ds = Vec::new();
+        p.root_disjuncts(&mut ds);
+        let mut budgets = vec![1usize, 2];
+        if ds.len() >= 2 && !budgets.contains(&(ds.len() - 1)) {
+            budgets.push(ds.len() - 1);
+        }
+        for b in budgets {
+            let name = format!("trnative{}", b);
+            compile_desc::<Pk>(out, id, &name, "tr-unsp", p, &kt_t, &|pol, u| {
+                pol.compile_tr_native(u, b).map_err(|e| class_of(&e))
+            });
+        }
     }
     if want("tap") {
     compile_desc::<Pk>(out, id, "trpriv", "tr-unsp", p, &kt_t, &|pol, u| {
